@@ -101,3 +101,30 @@ pub fn lex_cmp(a: &[u8], b: &[u8]) -> core::cmp::Ordering {
         Equal
     }
 }
+
+/// `core::ptr::copy` (memmove) as an explicit byte loop with the right direction. CBMC's built-in memmove model on a
+/// field-sensitive page array is what made single leaf operations cost minutes; with this stub they cost seconds.
+/// Used by the page-level harnesses only (listed in their evidence); the loop is covered by the unwinding assertion.
+pub unsafe fn stub_ptr_copy<T>(src: *const T, dst: *mut T, count: usize) {
+    let n = count * core::mem::size_of::<T>();
+    let s = src as *const u8;
+    let d = dst as *mut u8;
+    if (d as usize) <= (s as usize) {
+        let mut i = 0;
+        while i < n { *d.add(i) = *s.add(i); i += 1; }
+    } else {
+        let mut i = n;
+        while i > 0 { i -= 1; *d.add(i) = *s.add(i); }
+    }
+}
+
+/// Specification stub for `find_key_simd`, used by page-operation harnesses whose subject is the *write* side
+/// (insert_cell, BTree::insert/delete/update): it answers with a position fixed by the harness, which the harness
+/// constrains (kani::assume) to be exactly the linear-scan position of the key. The real `find_key_simd` is decided
+/// against that same linear scan in the C30 harnesses (assume-guarantee split); without the split the search result is a
+/// symbolic slot index and one page write costs > 20 GB in CBMC.
+pub static mut FIND_FOUND: bool = false;
+pub static mut FIND_POS: usize = 0;
+pub fn stub_find_key_simd(_page: &[u8], _key: &[u8], _n: usize) -> turdb::btree::SearchResult {
+    unsafe { if FIND_FOUND { turdb::btree::SearchResult::Found(FIND_POS) } else { turdb::btree::SearchResult::NotFound(FIND_POS) } }
+}
